@@ -168,16 +168,20 @@ Qed.
 Theorem extension_sound L L' : fsound_ok L' -> (fl_hd L' = false -> neg_flips_t (s_t (fl_S L')) = true) ->
   sub_sem (fl_S L) (fl_S L') = true -> frame_sub L L' = true ->
   forall t prems concl,
+    forallb (interp (fl_S L')) (concl :: prems) = true ->
     gcheck L' t (trunk (fl_hd L') 0 prems concl) [] = true -> gall_closed t = true ->
     forall M, model_ok L M -> forall u, ~ fcountermodel (fl_S L) M u prems concl.
 Proof.
-  intros OK Hn Hs Hf t prems concl Hck Hac M Hm u [Hu [Hp Hc]].
+  intros OK Hn Hs Hf t prems concl Hint Hck Hac M Hm u [Hu [Hp Hc]].
+  rewrite forallb_forall in Hint.
   apply (argument_sound L' OK Hn t prems concl Hck Hac M (sub_model_ok L L' M Hs Hf Hm) u).
   pose proof (mo_wf _ _ Hm) as Hwf.
   assert (Hvals : forall s, In (eval (fl_S L) M u env0 s) (t_vals (s_t (fl_S L)))).
   { intro s. unfold sub_sem in Hs. rewrite !andb_true_iff in Hs. destruct Hs as [[_ Hc0] Hg0].
     apply eval_vals; assumption. }
   split; [exact Hu|]. split.
-  - intros p Hin. rewrite (eval_sub _ _ M Hs Hwf). rewrite (sub_des _ _ _ Hs (Hvals p)). apply Hp. exact Hin.
-  - rewrite (eval_sub _ _ M Hs Hwf). rewrite (sub_des _ _ _ Hs (Hvals concl)). exact Hc.
+  - intros p Hin. rewrite (eval_sub _ _ M Hs Hwf p (Hint p (or_intror Hin))).
+    rewrite (sub_des _ _ _ Hs (Hvals p)). apply Hp. exact Hin.
+  - rewrite (eval_sub _ _ M Hs Hwf concl (Hint concl (or_introl eq_refl))).
+    rewrite (sub_des _ _ _ Hs (Hvals concl)). exact Hc.
 Qed.
